@@ -97,6 +97,10 @@ func (rl *ReconciledLoader) SetRemoteOnline(online bool) {
 		return
 	}
 	if rl.open && !wasOpen {
+		// anything still queued was sent in response to an earlier remote request.
+		// the remote answers the new request from the start of the traversal, so
+		// leftovers would be replayed against the wrong position: drop them
+		rl.remoteQueue.clear()
 		// if we're opening a remote request, we need to reverify against what we've loaded so far
 		rl.verifier = traversalrecord.NewVerifier(rl.traversalRecord)
 	}
